@@ -123,7 +123,7 @@ pub fn c14(out: &mut dyn Write, tier: &str, rng: &mut Rng, st: &mut Stats) {
                     let strip = |id: &str| id.strip_prefix("n_").unwrap_or(id).to_string();
                     let ns = d.nodes.iter().map(|(id, l)| format!("{}={}", strip(id), hex(l.as_bytes()))).collect::<Vec<_>>().join(",");
                     let es = d.edges.iter().map(|(a, b, l)| format!("{}>{}:{}", strip(a), strip(b), hex(l.as_bytes()))).collect::<Vec<_>>().join(",");
-                    writeln!(out, "C14|tree|{}|{}|{}|{}", ser_real(&pf.bdd), names_field, ns, es).unwrap();
+                    writeln!(out, "C14|tree|{}|{}|{}|{}|{}", ser_real(&pf.bdd), names_field, ns, es, hex(&buf)).unwrap();
                 }
                 _ => { writeln!(out, "C14|tree|{}|{}|PANIC-OR-UNREADABLE|", ser_real(&pf.bdd), names_field).unwrap(); }
             }
